@@ -208,6 +208,7 @@ pub fn gen_malformed(rng: &mut Rng, data: &[u8]) -> Vec<u8> {
         1 => {
             // one non-hex character at a seeded digit position
             let bad: &[&[u8]] = &[
+                b"+",
                 b"g",
                 b"z",
                 b"G",
